@@ -839,7 +839,16 @@ func (r *vC11Run) checkPolicies(pols []netv1.NetworkPolicy, deps map[string]*app
 						if ps := prev.find(svc.Name); ps != nil {
 							for _, e := range ps.Expose {
 								if e.IsGlobalDirect() && e.ExtPort() == port && e.Proto == string(proto) {
+									// (the listed finding is the case in which the service has
+									// no global port left, so that its policy should have been
+									// deleted; a service that still has one gets its policy
+									// rebuilt by the update, and the old port must be gone)
 									pclass = "port-exposed-globally-before-update"
+									for _, ne := range svc.Expose {
+										if ne.IsGlobalDirect() {
+											pclass = "port-of-the-earlier-manifest-in-a-policy-that-the-update-rebuilds"
+										}
+									}
 								}
 							}
 						}
